@@ -63,22 +63,58 @@ def main():
     model = {"uniform": G, "constrained": Constrained, "gaussprior": GaussPrior}[cfg.get("model", "uniform")]()
     snaps = []
 
+    def reeval(ns, s):
+        """Every saved proposal re-evaluated at every stored sample WITHOUT the library's own batching: the torch flows
+        are called directly on 512-row chunks (the logit / identity rescaling is the proposal's elementwise map)."""
+        x, log_j = ns.proposal.rescale(s)
+        flows = list(ns.proposal.flow.models) if ns.proposal.flow is not None and ns.proposal.flow.models is not None else []
+        out = np.zeros((len(s), 1 + len(flows)))
+        with torch.inference_mode():
+            for j, m in enumerate(flows):
+                m.eval()
+                for a in range(0, len(s), 512):
+                    xt = torch.from_numpy(x[a:a + 512]).type(torch.get_default_dtype())
+                    out[a:a + 512, j + 1] = m.log_prob(xt).cpu().numpy().astype(np.float64) + log_j[a:a + 512]
+        return out
+
     def store_snap(ns, st, name):
         s = st.samples
-        # re-evaluate every saved proposal at every stored sample (oracle validation)
-        with torch.inference_mode():
-            _, lq_re = ns.proposal.compute_meta_proposal_samples(s)
+        lq_re = reeval(ns, s)
         phys = model.from_unit_hypercube(s)
         logl_re = model.log_likelihood(phys)
         rows = []
-        for i in range(len(s)):
+        keep = range(len(s))
+        vec = None
+        if len(s) > cfg.get("max_rows", 4000):
+            # large stores: the whole-array comparisons are done here (same tolerances as the harness applies per row),
+            # and only every k-th row, the last 300 rows and the first offending rows go through the per-row pipeline
+            lq = np.asarray(st.log_q, dtype=float)
+            w = np.array([ns.proposal.weights[k] for k in sorted(ns.proposal.weights)], dtype=float)
+            bad = np.zeros(len(s), dtype=bool)
+            if lq.shape == lq_re.shape:
+                with np.errstate(invalid="ignore"):
+                    bad |= np.any((lq != lq_re) & ~(np.abs(lq - lq_re) <= 1e-3 + 1e-4 * np.abs(lq_re)), axis=1)
+                from scipy.special import logsumexp as _lse
+                with np.errstate(divide="ignore"):
+                    mix = _lse(lq, b=w[np.newaxis, :], axis=1)
+                bad |= ~(np.abs(mix - s["logQ"]) <= 1e-9 * np.maximum(1.0, np.abs(mix)))
+            else:
+                bad[:] = True
+            bad |= ~(np.abs(s["logW"] - (s["logU"] - s["logQ"])) <= 1e-12 * np.maximum(1.0, np.abs(s["logW"])))
+            bad |= ~((s["logL"] == logl_re) | (np.abs(s["logL"] - logl_re) <= 1e-12 * np.maximum(1.0, np.abs(s["logL"]))))
+            for n in model.names:
+                bad |= ~((s[n] >= 0.0) & (s[n] < 1.0))
+            step = max(1, len(s) // 1500)
+            keep = sorted(set(range(0, len(s), step)) | set(range(max(0, len(s) - 300), len(s))) | set(np.flatnonzero(bad)[:20].tolist()))
+            vec = {"n": int(len(s)), "n_bad": int(bad.sum()), "first_bad": [int(v) for v in np.flatnonzero(bad)[:5]]}
+        for i in keep:
             rows.append({
                 "x": [float(s["x"][i]), float(s["y"][i])],
                 "logU": float(s["logU"][i]), "logQ": float(s["logQ"][i]), "logW": float(s["logW"][i]),
                 "logL": float(s["logL"][i]), "logL_re": float(logl_re[i]), "it": int(s["it"][i]),
                 "lq": [float(v) for v in st.log_q[i]], "lq_re": [float(v) for v in lq_re[i]],
             })
-        return {"store": name, "rows": rows,
+        return {"store": name, "rows": rows, "n": int(len(s)), "vec": vec,
                 "live": None if st.live_points_indices is None else int(len(st.live_points_indices))}
 
     def snapshot(ns, where):
@@ -108,11 +144,39 @@ def main():
     INS.update_evidence = update_evidence
     INS.finalise = finalise
     kw = dict(cfg["kwargs"])
-    fs = FlowSampler(model, output=cfg["output"], importance_nested_sampler=True, plot=False, resume=False,
-                     seed=cfg["seed"], checkpointing=False, signal_handling=False,
-                     flow_config={"n_blocks": 2, "n_neurons": 8}, training_config={"max_epochs": 15, "patience": 5},
-                     **kw)
-    fs.run(plot=False, save=False)
+    common_kw = dict(output=cfg["output"], importance_nested_sampler=True, plot=False, seed=cfg["seed"], signal_handling=False,
+                     flow_config={"n_blocks": 2, "n_neurons": 8}, training_config={"max_epochs": 15, "patience": 5})
+    stops = list(cfg.get("resume_after", []))      # the process "dies" right after the checkpoint of these iterations
+    if not stops:
+        fs = FlowSampler(model, resume=False, checkpointing=False, **common_kw, **kw)
+        fs.run(plot=False, save=False)
+    else:
+        class StopHere(BaseException):
+            pass
+
+        real_ckpt = INS.checkpoint
+        state = {"stop": None}
+
+        def checkpoint(self, *a, **k):
+            r = real_ckpt(self, *a, **k)
+            if state["stop"] is not None and self.iteration >= state["stop"] and not self.finalised:
+                raise StopHere()
+            return r
+
+        INS.checkpoint = checkpoint
+        first = True
+        for stop in stops + [None]:
+            state["stop"] = stop
+            fs = FlowSampler(model, resume=not first, checkpointing=True, checkpoint_on_iteration=True, checkpoint_interval=1,
+                             **common_kw, **kw)
+            if not first:
+                snapshot(fs.ns, "resumed")          # what the restored sampler holds before it does anything
+            first = False
+            try:
+                fs.run(plot=False, save=False)
+            except StopHere:
+                del fs
+                continue
     json.dump({"snaps": snaps, "iterations": int(fs.ns.iteration),
                "likelihood_evaluations": int(model.likelihood_evaluations)}, sys.stdout)
 
